@@ -16,6 +16,8 @@ Passing the wrong density / temperature / species / frame therefore changes the 
             "q0": {"cx": 1e-33, "pop": 0.3, "bes": 1e-34, "stop": 1e-14},      # optional amplitude scales
             "pmin": 0.3, "pmax": 1.2,                    # optional range of |exponent|
             "override": {"cx|deuterium|2|carbon|6|(8, 7)": {"q0": 1e-33, "p": [0, 0, 0, 0, 0]}},   # optional explicit entries
+            "zero": ["pop|deuterium|2|carbon|6"],        # optional: "family|key" entries whose function is exactly 0.0
+            "null": ["bes|deuterium|neon|10|(3, 2)"],    # optional: entries served as the provider's NULL rate object (0.0)
             "cache_lists": true}                         # optional: beam_cx_pec() hands out the SAME list object per key
                                                          # (a caching provider); `returned` keeps (list, snapshot) pairs
 
@@ -59,6 +61,10 @@ def _u(seed, family, key, i):
     return int.from_bytes(h[:7], "big") / float(1 << 56)
 
 
+def _zero(*args):
+    return 0.0
+
+
 class BeamRates:
     """The family of analytic functions selected by `spec`, as plain-Python callables (this is what the oracle uses)."""
 
@@ -71,6 +77,8 @@ class BeamRates:
         self.q0 = dict(_Q0)
         self.q0.update(spec.get("q0", {}))
         self.override = spec.get("override", {})
+        self.zero = set(spec.get("zero", []))
+        self.null = set(spec.get("null", []))
         self._cache = {}
 
     # ---- coefficients
@@ -95,7 +103,12 @@ class BeamRates:
             ps.append(sign * mag)
         return q0, ps
 
+    def is_null(self, family, key):
+        return family + "|" + key in self.null
+
     def function(self, family, key):
+        if family + "|" + key in self.zero or family + "|" + key in self.null:
+            return _zero
         q0, ps = self.coefficients(family, key)
         refs = _REFS[family]
 
@@ -175,6 +188,8 @@ class MockBeamCXPEC(BeamCXPEC):
     def evaluate(self, energy, temperature, density, z_effective, b_field):
         if self.log is not None:
             self.log.append(("cx", self.key, (energy, temperature, density, z_effective, b_field)))
+        if self.fn is None:              # null rate
+            return 0.0
         return self.fn(energy, temperature, density, z_effective, b_field)
 
 
@@ -222,7 +237,7 @@ class MockBeamAtomicData(AtomicData):
         for m in self.rates.metastables():
             key = BeamRates.cx_key(donor_ion, m, receiver_ion, receiver_charge, transition)
             self.requests.append(("beam_cx_pec", key))
-            out.append(MockBeamCXPEC(m, self.rates.function("cx", key), key, self.log))
+            out.append(MockBeamCXPEC(m, None if self.rates.is_null("cx", key) else self.rates.function("cx", key), key, self.log))
         self.returned.append((out, tuple(out)))
         if self._cx_cache is not None:
             self._cx_cache[ckey] = out
@@ -235,17 +250,20 @@ class MockBeamAtomicData(AtomicData):
     def beam_population_rate(self, beam_ion, metastable, plasma_ion, charge):
         key = BeamRates.pop_key(beam_ion, metastable, plasma_ion, charge)
         self.requests.append(("beam_population_rate", key))
-        return MockBeamPopulationRate(self.rates.population(beam_ion, metastable, plasma_ion, charge), key, self.log)
+        fn = None if self.rates.is_null("pop", key) else self.rates.population(beam_ion, metastable, plasma_ion, charge)
+        return MockBeamPopulationRate(fn, key, self.log)
 
     def beam_emission_pec(self, beam_ion, plasma_ion, charge, transition):
         key = BeamRates.bes_key(beam_ion, plasma_ion, charge, transition)
         self.requests.append(("beam_emission_pec", key))
-        return MockBeamEmissionPEC(self.rates.emission(beam_ion, plasma_ion, charge, transition), key, self.log)
+        fn = None if self.rates.is_null("bes", key) else self.rates.emission(beam_ion, plasma_ion, charge, transition)
+        return MockBeamEmissionPEC(fn, key, self.log)
 
     def beam_stopping_rate(self, beam_ion, plasma_ion, charge):
         key = BeamRates.stop_key(beam_ion, plasma_ion, charge)
         self.requests.append(("beam_stopping_rate", key))
-        return MockBeamStoppingRate(self.rates.stopping(beam_ion, plasma_ion, charge), key, self.log)
+        fn = None if self.rates.is_null("stop", key) else self.rates.stopping(beam_ion, plasma_ion, charge)
+        return MockBeamStoppingRate(fn, key, self.log)
 
 
 # ------------------------------------------------------------------------------------------------ attenuator
